@@ -178,11 +178,24 @@ end
 
 def inspectLines (g : G Label Hex) (v : Nat) : Option (List Line) := (expandL g (cap g + 1) 0 v [v]).map (·.1)
 
-def lineText (l : Line) : String :=
-  String.ofList (List.replicate (2 * l.depth) ' ') ++ s!"  .{labelText l.label} ➞ ν{l.target}" ++ (if l.ellipsis then "…" else "")
+/-! #### the text of `inspect`, character by character -/
+
+def iArrow : List Char := [' ', '➞', ' ', 'ν']
+
+def lineChars (l : Line) : List Char :=
+  List.replicate (2 * l.depth) ' ' ++ [' ', ' ', '.'] ++ Lb.print l.label ++ iArrow ++ nat10 l.target ++
+    (if l.ellipsis then ['…'] else [])
+
+/-- lines separated (not terminated) by newlines -/
+def joinNl : List (List Char) → List Char
+  | [] => []
+  | [l] => l
+  | l :: l' :: ls => l ++ '\n' :: joinNl (l' :: ls)
+
+def inspectChars (v : Nat) (ls : List Line) : List Char := 'ν' :: nat10 v ++ '\n' :: joinNl (ls.map lineChars)
 
 /-- `inspect`: `none` = panic (id at or above the capacity) or fuel exhausted (proved impossible) -/
 def toInspect (g : G Label Hex) (v : Nat) : Option String :=
-  if v < cap g then (inspectLines g v).map (fun ls => s!"ν{v}\n" ++ "\n".intercalate (ls.map lineText)) else none
+  if v < cap g then (inspectLines g v).map (fun ls => String.ofList (inspectChars v ls)) else none
 
 end Rs
